@@ -206,6 +206,20 @@ func oraclePlainFields(c *Ctx, cr *CaseResult) {
 					in["case_file"] = c.saveCase(cr)
 				}
 				c.Check("untagged-fields-are-never-modified", ok, "C01:plain-field-modified", in, "the nil pointer field now points to a struct", "still nil")
+			case f.Plain && f.Kind == "v" && f.Exported && f.AliasOf != "":
+				// the slice the program saved: still the values the option was initialised with
+				want := reflect.New(fv.Type()).Elem()
+				for _, f2 := range sd.Fields {
+					if f2.Name == f.AliasOf && f2.Init != "" {
+						setVal(f.Ty, want, f2.Init)
+					}
+				}
+				ok := reflect.DeepEqual(fv.Interface(), want.Interface())
+				in := map[string]interface{}{"case": cr.Case.Description, "field": f.Name, "holds_the_slice_the_option_field_was_initialised_with": f.AliasOf}
+				if !ok {
+					in["case_file"] = c.saveCase(cr)
+				}
+				c.Check("untagged-fields-are-never-modified", ok, "C01:plain-field-modified", in, fmt.Sprintf("%v", fv.Interface()), fmt.Sprintf("%v as the program stored it", want.Interface()))
 			case f.Plain && f.Kind == "v" && f.Exported:
 				ok := fv.IsZero()
 				in := map[string]interface{}{"case": cr.Case.Description, "field": f.Name}
